@@ -21,8 +21,18 @@ func TestMain(m *testing.M) { ev.Main(m, "C05") }
 // records only with KeepControlRecords; eventually every committed and plain record is
 // returned.
 func TestReadCommittedVisibility(t *testing.T) {
+	readCommitted(t, wl.ConsFocus{Txn: true, ForceRC: true})
+}
+
+// TestReadCommittedInterleaved searches the denser sub-domain of one partition shared by three
+// transactional producers with overlapping and nested transactions and small fetch sizes.
+func TestReadCommittedInterleaved(t *testing.T) {
+	readCommitted(t, wl.ConsFocus{Txn: true, ForceRC: true, NoFaults: true, Interleaved: true})
+}
+
+func readCommitted(t *testing.T, focus wl.ConsFocus) {
 	rapid.Check(t, func(rt *rapid.T) {
-		plan := wl.GenConsPlan(rt, wl.ConsFocus{Txn: true, ForceRC: true})
+		plan := wl.GenConsPlan(rt, focus)
 		var o *wl.ConsObs
 		spun := false
 		var overlap, sawAbort, sawTimeout bool
@@ -38,6 +48,9 @@ func TestReadCommittedVisibility(t *testing.T) {
 		ev.Case(o.Digest(), nt)
 		if spun {
 			ev.Class("inconclusive-request-spin")
+		}
+		if focus.Interleaved {
+			ev.Class("interleaved-focus")
 		}
 		if overlap {
 			ev.Class("transactions-overlap-in-one-partition")
